@@ -61,16 +61,23 @@ fn partial_encode(
         .encode(Cow::Owned(decoded_value), options)?
         .into_owned();
 
+    // The whole value is rewritten: erase it first, since a partial write at offset 0 never truncates
+    // and a shorter encoding would otherwise keep the tail of the previous one
     #[cfg(feature = "async")]
     if _async {
+        output_handle.erase().await?;
         output_handle
             .partial_encode(&[(0, Cow::Owned(bytes_encoded))], options)
             .await
     } else {
+        output_handle.erase()?;
         output_handle.partial_encode(&[(0, Cow::Owned(bytes_encoded))], options)
     }
     #[cfg(not(feature = "async"))]
-    output_handle.partial_encode(&[(0, Cow::Owned(bytes_encoded))], options)
+    {
+        output_handle.erase()?;
+        output_handle.partial_encode(&[(0, Cow::Owned(bytes_encoded))], options)
+    }
 }
 
 /// The default bytes-to-bytes partial encoder. Decodes the entire chunk, updates it, and writes the entire chunk.
